@@ -16,8 +16,8 @@ RULE = ("one case = (method, dtype, sign of h, state shape, program seed, call h
         "non-trivial = >=1 accepted step; distinct by (method,dtype,sign,shape,seed,history)")
 ASSUMPTIONS = ["explicit threshold 64*eps*(1+sum|a_ij|)*(1+max|k|)*(1+L|h|); implicit threshold 4*desired_tol + rounding, "
                "desired_tol recomputed from the inputs exactly as the library's step() does"]
-FLOORS = {"quick": {"accepted_steps": 300, "stage_equations_checked": 1500, "newton_failure_then_retry": 1, "second_calls": 60, "insitu_steps": 300, "stiff_reduced_precision_steps": 15},
-          "thorough": {"accepted_steps": 3000, "stage_equations_checked": 15000, "newton_failure_then_retry": 5, "second_calls": 600, "insitu_steps": 3000, "stiff_reduced_precision_steps": 120}}
+FLOORS = {"quick": {"accepted_steps": 300, "stage_equations_checked": 1500, "newton_failure_then_retry": 1, "second_calls": 60, "insitu_steps": 300, "stiff_reduced_precision_steps": 15, "increment_components_checked_mixed_scale": 80},
+          "thorough": {"accepted_steps": 3000, "stage_equations_checked": 15000, "newton_failure_then_retry": 5, "second_calls": 600, "insitu_steps": 3000, "stiff_reduced_precision_steps": 120, "increment_components_checked_mixed_scale": 320}}
 K_EXPL = 64.0
 K_IMPL = 4.0
 K_SPLIT = 128.0
@@ -47,6 +47,17 @@ def gen_cases(tier, seed):
                 cases.append(dict(method=name, dtype=dt, sign=sgn, h=sgn * hmag, t0=t0, shape=list(shape),
                                   pseed=int(rng.integers(1 << 30)), history=["end", "elsewhere", "end"][: (2 if tier == "quick" else 3)],
                                   cost=1 + (0 if info["explicit"] else info["stages"] * 2) * (4 if dt == "longdouble" else 1)))
+    # mixed-scale states (trace species of order 1e-18 .. 1e-24 beside O(1) ones, as in chemical kinetics): the increment is h*sum(b_i k_i) of the
+    # stage slopes the integrator reports, COMPONENT BY COMPONENT (a global rounding unit would hide the small components entirely)
+    rngt = rng_for(203, seed)
+    for name, info in M.items():
+        if info["splitting"]:
+            continue
+        for r in range(1 if tier == "quick" else 4):
+            sgn = int(rngt.choice([-1, 1]))
+            cases.append(dict(method=name, dtype="float64", sign=sgn, h=sgn * float(10 ** rngt.uniform(-3, -0.5)), t0=float(rngt.uniform(-5, 5)),
+                              shape=[3] if (info["explicit"] or info["stages"] < 10) else [2], trace=[1.0, float(10 ** rngt.uniform(-24, -17)), float(10 ** rngt.uniform(-22, -16))],
+                              pseed=int(rngt.integers(1 << 30)), history=["end"], cost=1 + (0 if info["explicit"] else info["stages"] * 2)))
     # forced Newton failures: hard starting steps on a strongly nonlinear program
     impl = [n for n, i in M.items() if not i["explicit"]]
     for r in range(4 if tier == "quick" else 24):
@@ -278,7 +289,25 @@ def run_case(spec):
         prob = _GP
         shape = (gp.dim,)
         n = gp.dim
-    rec = util.Rec(sig="%s|%s|%d|%s|%d|%s" % (spec["method"], spec["dtype"], spec["sign"], shape, spec["pseed"], "".join(h[0] for h in spec["history"])))
+    if spec.get("trace"):
+        base_ = prob
+        Sv = np.asarray(spec["trace"][:n], dtype=np.longdouble)
+
+        class _Mixed:      # u = S*y component-wise: the same dynamics with components of very different magnitude
+            w, v = base_.w, base_.v
+            lipschitz = staticmethod(lambda: base_.lipschitz())
+
+            @staticmethod
+            def rhs(t, u, **kw):
+                u = np.asarray(u)
+                S_ = Sv.astype(u.dtype)
+                return S_ * base_.rhs(t, u / S_)
+
+            @staticmethod
+            def ystar(t, dtype=np.longdouble):
+                return (Sv * base_.ystar(t, dtype=np.longdouble)).astype(dtype)
+        prob = _Mixed
+    rec = util.Rec(sig="%s|%s|%d|%s|%d|%s|%s" % (spec["method"], spec["dtype"], spec["sign"], shape, spec["pseed"], "".join(h[0] for h in spec["history"]), bool(spec.get("trace"))))
     feats = {"method": spec["method"], "family": info["family"], "dtype": spec["dtype"], "sign": spec["sign"]}
     intg = info["cls"](shape, dtype=dt, **(dict(rtol=spec["tol"], atol=spec["tol"]) if spec.get("tol") else {}))
     util.passthrough_adaptation(intg)
@@ -287,6 +316,8 @@ def run_case(spec):
     rng = rng_for(202, spec["pseed"])
     t = np.asarray(spec["t0"], dtype=dt)
     y = (prob.ystar(spec["t0"]) + 0.1 * rng.standard_normal(shape)).astype(dt)
+    if spec.get("trace"):
+        y = (prob.ystar(spec["t0"]) * (1 + 0.1 * rng.standard_normal(shape))).astype(dt)
     h = np.asarray(spec["h"], dtype=dt)
     L = prob.lipschitz()
     plan = ["first"] + list(spec["history"])
@@ -295,6 +326,8 @@ def run_case(spec):
         if what == "elsewhere":   # NOT the end of the previous step: nothing cached may be reused
             t = np.asarray(float(t) + float(rng.uniform(-3, 3)), dtype=dt)
             y = (prob.ystar(float(t)) + 0.1 * rng.standard_normal(shape)).astype(dt)
+            if spec.get("trace"):
+                y = (prob.ystar(float(t)) * (1 + 0.1 * rng.standard_normal(shape))).astype(dt)
         n_att0 = len(log.attempts)
         y_in = y.copy()
         try:
@@ -370,6 +403,17 @@ def run_case(spec):
             rec.worst("increment_defect_over_unit", ed / unitd if unitd > 0 else 0.0)
             if ed > unitd:
                 rec.violate("increment", "dState_differs_from_h_sum_b_k", feats, err=ed, unit=unitd)
+            # the same identity component by component, in the unit of each component's own terms
+            bl = np.abs(np.asarray(info["cls"].tableau_final[0, 1:], dtype=np.longdouble))
+            unit_c = K_EXPL * max(eps, 2.3e-16) * abs(dTf) * np.tensordot(np.abs(k.astype(np.longdouble)), bl, axes=([-1], [0]))
+            err_c = np.abs(np.asarray(dY, dtype=np.longdouble) - dref)
+            rec.bump("increment_components_checked", int(err_c.size))
+            if spec.get("trace"):
+                rec.bump("increment_components_checked_mixed_scale", int(err_c.size))
+            if bool(np.any(err_c > unit_c)):
+                j_ = int(np.argmax(err_c - unit_c))
+                rec.violate("increment", "a_component_of_dState_differs_from_h_sum_b_k_of_that_component", dict(feats, mixed_scale=bool(spec.get("trace"))),
+                            component=j_, err=float(err_c.reshape(-1)[j_]), unit=float(unit_c.reshape(-1)[j_]), dState=float(np.asarray(dY).reshape(-1)[j_]))
         # next call continues from the end of this step
         t = np.asarray(t + dT, dtype=dt)
         y = (y + dY).astype(dt)
